@@ -216,7 +216,14 @@ func (node *harness) NextAction(ctx context.Context, flow Flow) chan IAction {
 
 	response := make(chan chan IAction, 1)
 	node.mch <- nextHarnessActionMessage{flow: flow, response: response}
-	return <-response
+	select {
+	case out := <-response:
+		return out
+	case <-ctx.Done():
+		// the harness loop may already have returned on ctx.Done: nobody would answer.
+		// A nil channel is never ready; the token's own select takes its ctx.Done case.
+		return nil
+	}
 }
 
 func (node *harness) Element() schema.FlowNodeInterface { return node.activity.Element() }
